@@ -460,6 +460,8 @@ def b_sysofeq(V, cfg):
     Afp = A[np.ix_(free, pres)]
     assume_nonsingular(V, Aff, "A_ff")
     bf = Aff @ xf + Afp @ xp
+    if cfg.get("real_loads"):
+        bf = V.reals("bfree", shpf)      # real applied loads on a complex matrix (no pre-image: explicit solution of A_ff)
     Aval = _mk_sparse(V, A) if cfg.get("sparse", True) else A
     sA, sb, sx = pym.Signal("A", Aval), pym.Signal("bf", bf), pym.Signal("xp", xp)
     how = cfg.get("given", "both")
